@@ -27,8 +27,8 @@ I(t, g) == L("    " \o t, g)
 S(n) == ToString(n)
 
 \* ------------------------------------------------------------------ leaf templates (arity, returns)
-Leaves == {"add2", "sumloop", "sign", "print", "local", "bytes", "counted"}
-Arity(k) == CASE k = "add2" -> 2 [] k \in {"wrap", "rec", "twice"} -> (IF k = "twice" THEN 2 ELSE 1) [] OTHER -> 1
+Leaves == {"add2", "sumloop", "sign", "print", "local", "bytes", "counted", "tablecheck", "max2"}
+Arity(k) == CASE k \in {"add2", "max2", "twice"} -> 2 [] k \in {"tablecheck", "loadmax"} -> 0 [] OTHER -> 1
 Returns(k) == k # "print"
 
 Leaf(n, k) ==
@@ -42,6 +42,14 @@ Leaf(n, k) ==
            L(n \o "_z:", ""), I("li a0, 2", ""), L(n \o "_e:", ""), I("ret", n \o ":ret") >>
     [] k = "print" ->
         << L(n \o ":", n \o ":label"), I("li a7, 1", n \o ":first"), I("ecall", n \o ":ecall"), I("ret", n \o ":ret") >>
+    [] k = "tablecheck" ->   \* no arguments; the result is set before a loop over a global table; two returns
+        << L(n \o ":", n \o ":label"), I("la t0, msg", n \o ":first"), I("li t1, 2", ""), I("li a0, 1", ""), L(n \o "_loop:", ""),
+           I("lw t2, 0(t0)", ""), I("lw t3, 4(t0)", ""), I("bgt t2, t3, " \o n \o "_fail", ""), I("addi t0, t0, 4", ""),
+           I("addi t1, t1, -1", ""), I("bnez t1, " \o n \o "_loop", ""), I("ret", ""), L(n \o "_fail:", ""),
+           I("li a0, 0", ""), I("ret", n \o ":ret") >>
+    [] k = "max2" ->         \* hands one of its arguments back unchanged on one path
+        << L(n \o ":", n \o ":label"), I("bge a0, a1, " \o n \o "_done", n \o ":first"), I("mv a0, a1", ""), L(n \o "_done:", ""),
+           I("ret", n \o ":ret") >>
     [] k = "bytes" ->     \* sub-word locals directly below / next to a saved register's slot
         << L(n \o ":", n \o ":label"), I("addi sp, sp, -16", n \o ":first"), I("sw s0, 8(sp)", ""), I("mv s0, a0", ""),
            I("sb a0, 7(sp)", ""), I("sh a0, 4(sp)", ""), I("sb a0, 12(sp)", ""), I("lbu t0, 7(sp)", ""), I("lh t1, 4(sp)", ""),
@@ -71,6 +79,10 @@ NonLeaf(n, k, callee, ly) ==
            I("j " \o n \o "_done", n \o ":jump"), L(n \o "_base:", ""), I("li a0, 1", ""), L(n \o "_done:", ""),
            I("lw s0, " \o s0 \o "(sp)", n \o ":restore-s0"), I("lw ra, " \o ra \o "(sp)", n \o ":restore-ra"),
            I("addi sp, sp, " \o fs, n \o ":free"), I("ret", n \o ":ret") >>
+    [] k = "loadmax" ->  \* no arguments: loads two globals and returns callee(x, y); callee: arity 2, returns
+        << L(n \o ":", n \o ":label"), I("addi sp, sp, -" \o fs, n \o ":first"), I("sw ra, " \o ra \o "(sp)", n \o ":save-ra"),
+           I("la t0, msg", ""), I("lw a0, 0(t0)", ""), I("lw a1, 4(t0)", n \o ":before-call"), I("call " \o callee, n \o ":call"),
+           I("lw ra, " \o ra \o "(sp)", n \o ":restore-ra"), I("addi sp, sp, " \o fs, n \o ":free"), I("ret", n \o ":ret") >>
     [] k = "twice" ->    \* two arguments, result = callee(a0) + callee(a1); callee: arity 1, returns
         << L(n \o ":", n \o ":label"), I("addi sp, sp, -" \o fs, n \o ":first"), I("sw ra, " \o ra \o "(sp)", n \o ":save-ra"),
            I("sw s0, " \o s0 \o "(sp)", n \o ":save-s0"), I("sw s1, " \o s1 \o "(sp)", n \o ":save-s1"), I("mv s1, a1", n \o ":def-s1"),
@@ -82,7 +94,7 @@ NonLeaf(n, k, callee, ly) ==
 \* ------------------------------------------------------------------ main: one call block per entry of the call sequence
 \* a call block loads the arguments, calls, and consumes the result with a print ecall
 CallBlock(fn, kind, c, i) ==
-  << I("li a0, " \o S(c), "main:arg" \o S(i)) >>
+  (IF Arity(kind) >= 1 THEN << I("li a0, " \o S(c), "main:arg" \o S(i)) >> ELSE <<>>)
   \o (IF Arity(kind) = 2 THEN << I("li a1, " \o S(c + 1), "") >> ELSE <<>>)
   \o << I("call " \o fn, "main:call" \o S(i)) >>
   \o (IF Returns(kind)
@@ -157,7 +169,7 @@ Inject(p, kind, fn, var) ==
                    E({"invalid-use-before-assignment"}, "inj", 29))
           ELSE no
     [] kind = "never-assigned-in-main" ->
-        IF fn = "F1" THEN yes(InsAfter(p, Idx(p, "main:arg1"), << I(CASE var = 1 -> "add a0, a0, t4" [] var = 2 -> "addi t4, t4, 1" [] OTHER -> "sw t4, -4(sp)", "inj") >>),
+        IF fn = "F1" /\ Has(p, "main:arg1") THEN yes(InsAfter(p, Idx(p, "main:arg1"), << I(CASE var = 1 -> "add a0, a0, t4" [] var = 2 -> "addi t4, t4, 1" [] OTHER -> "sw t4, -4(sp)", "inj") >>),
                               E({"invalid-use-before-assignment"}, "inj", 29)) ELSE no
     [] kind = "unused-assignment" ->
         IF Has(p, t("ret")) THEN yes(InsAfter(p, Idx(p, t("ret")) - 1, << I(CASE var = 1 -> "li t2, 9" [] var = 2 -> "mv t2, a0" [] OTHER -> "slli t2, a0, 3", "inj") >>), E({"dead-assignment"}, "inj", 7)) ELSE no
@@ -195,12 +207,20 @@ TextOf(p, i) == IF i > Len(p) THEN "" ELSE p[i].t \o "\n" \o TextOf(p, i + 1)
 \* 0-based line of a tag; a label tag on the expected line also counts (label and first instruction are distinct lines)
 LineOfTag(p, tag) == IF Has(p, tag) THEN Idx(p, tag) - 1 ELSE -1
 
+\* index of the first of the label-only lines directly in front of line i (i itself if there is none)
+IsLabelLine(l) == Len(l.t) > 0 /\ SubSeq(l.t, Len(l.t), Len(l.t)) = ":"
+RECURSIVE FirstLabelLine(_, _)
+FirstLabelLine(p, i) == IF i > 1 /\ IsLabelLine(p[i - 1]) THEN FirstLabelLine(p, i - 1) ELSE i
+
 \* ------------------------------------------------------------------ state machine
 MainSeqs == UNION { [1..n -> (1..3) \X {2, 4}] : n \in 1..3 }
 Init == phase = "start" /\ f1 = "" /\ f2 = "" /\ f3 = "" /\ lay = <<16, 12, 8, 4>> /\ mainseq = <<>> /\ inj = <<"", "", 1>>
 PickFns == /\ phase = "start"
-           /\ \E a \in {"sumloop", "sign", "local", "bytes", "counted"}, b \in {"wrap", "rec", "twice"}, c \in Leaves \cup {"none"}, ly \in Layouts :
-                f1' = a /\ f2' = b /\ f3' = c /\ lay' = ly
+           /\ \E a \in Leaves \ {"print"}, b \in {"wrap", "rec", "twice", "loadmax"}, c \in Leaves \cup {"none"}, ly \in Layouts :
+                \* the callee F1 must have the arity its caller F2 passes
+                /\ (b \in {"wrap", "twice"} => Arity(a) = 1)
+                /\ (b = "loadmax" => Arity(a) = 2)
+                /\ f1' = a /\ f2' = b /\ f3' = c /\ lay' = ly
            /\ phase' = "main" /\ UNCHANGED <<mainseq, inj>>
 PickMain == /\ phase = "main"
             /\ \E ms \in MainSeqs :
@@ -220,7 +240,8 @@ Emit == /\ phase = "emit"
            IN PrintT("CASE " \o ToJson([text |-> TextOf(r.prog, 1), f1 |-> f1, f2 |-> f2, f3 |-> f3, lay |-> lay,
                                         nmain |-> Len(mainseq), inj |-> inj[1], fn |-> inj[2], variant |-> inj[3],
                                         codes |-> r.exp.codes, line |-> LineOfTag(r.prog, r.exp.tag),
-                                        alt |-> LineOfTag(r.prog, r.exp.alt), reg |-> r.exp.reg]))
+                                        alt |-> (IF r.exp.alt = "" THEN -1 ELSE FirstLabelLine(r.prog, Idx(r.prog, r.exp.tag)) - 1),
+                                        reg |-> r.exp.reg]))
         /\ phase' = "done" /\ UNCHANGED <<f1, f2, f3, lay, mainseq, inj>>
 Next == PickFns \/ PickMain \/ PickInj \/ Emit
 Spec == Init /\ [][Next]_vars
